@@ -92,7 +92,7 @@ def run(chk):
     pr = list(r.printed)
     rng.shuffle(pr)
     for i, b in enumerate(pr[: 300 if quick else 5000]):
-        sc = c06.scenario(b["recs"], c06.KINDS[i % len(c06.KINDS)], rng.randrange(1 << 30), 4)
+        sc = c06.scenario(b["recs"], c06.KINDS[i % len(c06.KINDS)], rng.randrange(1 << 30), 4)     # (every second one full-duplex)
         sc["conns"][0]["flow"] = rnd_flow(rng, rng.choice([4, 6]))
         sc["ts0"], sc["step"] = rng.randrange(10 ** 15, 2 * 10 ** 15), rng.choice([1, 7, 999_983, 1_000_003, 123_457])
         if i % 3 == 0:
